@@ -137,6 +137,34 @@ def _is_place_arg(b, o, place):
     return proj == place[1]
 
 
+NEW_TABLE = "draw_table::DrawTable::new"
+
+
+def _fresh_table_writes(b, ex, local, proj_names, deref=False):
+    """Blocks in which the table place is overwritten with a fresh `DrawTable::new()`: the same reset
+    as clear() (R10.7 states that new() starts empty)."""
+    out = set()
+    for loc, st in b.iter_stmts():
+        if st["k"] != "assign" or st["place"]["local"] != local:
+            continue
+        pr = st["place"]["proj"]
+        if any(e["k"] not in ("field", "deref") for e in pr):
+            continue
+        if bool([e for e in pr if e["k"] == "deref"]) != deref:
+            continue
+        if tuple(e.get("name") for e in pr if e["k"] == "field") != tuple(proj_names):
+            continue
+        e = strip_refs(ex.rvalue(st["rv"], loc))
+        if e[0] == "call" and e[1] == NEW_TABLE:
+            out.add(loc[0])
+    for bb, t in b.iter_calls(callee=NEW_TABLE):
+        d = t["dest"]
+        if d["local"] == local and not deref and tuple(e.get("name") for e in d["proj"] if e["k"] == "field") == tuple(proj_names) and \
+                all(e["k"] == "field" for e in d["proj"]):
+            out.add(bb)
+    return out
+
+
 def _table_calls(b, place, mode=None):
     """Blocks calling a DrawTable method / HashMap::insert on the table at `place` (local, fields)."""
     out = {}
@@ -175,7 +203,7 @@ def r10_12(ctx):
     passes_table = any(_is_place_arg(lb, a, T) for a in pt["args"])
     ctx.ob("position-arm:rebuilds-the-session-table", passes_table, lb.where(lb.term_loc(pbb)), "play_out_position receives the session's repetition table")
     tc = _table_calls(lb, T)
-    clears = {bb for bb, k in tc.items() if k == "clear"}
+    clears = {bb for bb, k in tc.items() if k == "clear"} | _fresh_table_writes(lb, lex, T[0], T[1])
     # cleared for *this* command: every path from the head of the command loop to the rebuild passes a
     # clear of the session table (whatever the dispatch looks like: string match, classifier enum,
     # session method), and nothing else touches the table between that clear and the rebuild
@@ -211,7 +239,7 @@ def r10_12(ctx):
         elif c.endswith("::clear"):
             ptc[bb] = "clear"
     rets = pb.return_blocks()
-    inner_clears = {bb for bb, k in ptc.items() if k == "clear"}
+    inner_clears = {bb for bb, k in ptc.items() if k == "clear"} | _fresh_table_writes(pb, pex, tp[0], (), deref=True)
     populate = {bb for bb, k in ptc.items() if k in ("insert", "add_board_to_draw_table")}
     # (the entry block itself may be the clearing call)
     cleared_inside = bool(inner_clears) and (0 in inner_clears or (all(not pb.reaches(0, r, removed_nodes=inner_clears) for r in rets) and
@@ -389,19 +417,24 @@ def r10_4(ctx):
 def r10_7(ctx):
     """DrawTable primitives: clear() empties the map; new() starts empty; Clone is the derived copy."""
     f = ctx.facts
-    b = f.body(CLEAR)
     ctx.note_fn(CLEAR, "draw_table::DrawTable::new")
-    ex = Exprs(b)
-    ok = False
-    for bb, t in b.iter_calls():
-        c = callee_of(t) or ""
-        if c.endswith("HashMap::<K, V, S, A>::clear"):
-            a = strip_refs(ex.call_args(bb)[0])
-            ok = a[0] == "field" and a[2] == "table"
-    rets = b.return_blocks()
-    clr = {bb for bb, t in b.iter_calls() if (callee_of(t) or "").endswith("HashMap::<K, V, S, A>::clear")}
-    ok = ok and bool(rets) and all(not b.reaches(0, r, removed_nodes=clr) or 0 in clr for r in rets)
-    ctx.ob("DrawTable::clear", ok, b.file, "clear() empties self.table on every path")
+    if f.has_body(CLEAR):
+        b = f.body(CLEAR)
+        ex = Exprs(b)
+        ok = False
+        for bb, t in b.iter_calls():
+            c = callee_of(t) or ""
+            if c.endswith("HashMap::<K, V, S, A>::clear"):
+                a = strip_refs(ex.call_args(bb)[0])
+                ok = a[0] == "field" and a[2] == "table"
+        rets = b.return_blocks()
+        clr = {bb for bb, t in b.iter_calls() if (callee_of(t) or "").endswith("HashMap::<K, V, S, A>::clear")}
+        ok = ok and bool(rets) and all(not b.reaches(0, r, removed_nodes=clr) or 0 in clr for r in rets)
+        ctx.ob("DrawTable::clear", ok, b.file, "clear() empties self.table on every path")
+    else:
+        # no clear() method at all: nothing can rely on it; resets are then fresh tables (new(), below),
+        # and R10.1 still demands a reset per `position` command
+        ctx.ob("DrawTable::clear", True, "src/draw_table.rs", "there is no clear() method; the table is reset by replacing it with DrawTable::new()", nontrivial=False)
     nb = f.body("draw_table::DrawTable::new")
     ok = any((callee_of(t) or "").endswith("HashMap::<K, V>::new") or (callee_of(t) or "").endswith("::new") for _, t in nb.iter_calls())
     ctx.ob("DrawTable::new", ok, nb.file, "new() starts from an empty map")
